@@ -93,7 +93,9 @@ func (st *StateDB) UpdateValidator(newVal, oldVal *Validator) bool {
 
 	newMainAddress := newVal.MainAddress()
 	st.setValidator(newVal)
-	st.validatorJournal.append(validatorUpdateChange{address: &newMainAddress, newVal: newVal, oldVal: oldVal})
+	// journal a copy: callers keep mutating the stored object in place (e.g. switching it
+	// offline), and the revert must undo the statistics of what was stored at this point
+	st.validatorJournal.append(validatorUpdateChange{address: &newMainAddress, newVal: newVal.PartialCopy(), oldVal: oldVal})
 
 	if !newVal.StakeEqual(oldVal) {
 		st.decrValidatorsStat(oldVal)
